@@ -186,4 +186,33 @@ func init() {
 		}
 		props["C18"] = p
 	}
+
+	// ---- C16 ----
+	{
+		p := &Prop{ID: "C16", Outside: []string{
+			"-format templates, {{json .}} and the problem-matcher regular expression (text/template, encoding/json, regexp on symbolic text): not encodable",
+			"colour escape sequences; non-ASCII display width",
+			"user text longer than the bound at one position; two symbolic positions at once",
+			"messages of the two external-tool rules and of the deprecated-commands rule",
+		}}
+		p.Quick = []HRun{
+			{Entry: "HarnessC16Echo", Args: []int64{1, 0}, Bound: "every scalar of the full skeleton replaced by 1 arbitrary byte", Require: []string{"diagnostic"}},
+			{Entry: "HarnessC16Echo", Args: []int64{2, 0}, Bound: "... by 2 arbitrary bytes", Require: []string{"diagnostic"}},
+			{Entry: "HarnessC16Echo", Args: []int64{2, 1}, Bound: "... by '@' + 2 arbitrary bytes (cron descriptors)", Require: []string{"diagnostic"}},
+			{Entry: "HarnessC16Echo", Args: []int64{1, 2}, Bound: "... by '${{ ' + 1 arbitrary byte", Require: []string{"diagnostic"}},
+			{Entry: "HarnessC16Echo", Args: []int64{2, 3}, Bound: "... by 'a/b@' + 2 arbitrary bytes (action refs)", Require: []string{"diagnostic"}},
+			{Entry: "HarnessC16Echo", Args: []int64{2, 4}, Bound: "... by 'docker://' + 2 arbitrary bytes", Require: []string{"diagnostic"}},
+			{Entry: "HarnessC16Echo", Args: []int64{2, 5}, Bound: "... by './' + 2 arbitrary bytes (local paths)", Require: []string{"diagnostic"}},
+			{Entry: "HarnessC16Key", Args: []int64{1}, Bound: "a symbolic 1-byte key in every mapping", Require: []string{"diagnostic"}},
+			{Entry: "HarnessC16Key", Args: []int64{3}, Bound: "a symbolic 3-byte key in every mapping", Require: []string{"diagnostic"}},
+			{Entry: "HarnessC16Snippet", Args: []int64{4}, Bound: "all printable-ASCII/LF sources of 4 bytes x 64-bit symbolic line and column", Require: []string{"line-found", "caret"}},
+		}
+		p.Thorough = append(append([]HRun{}, p.Quick...),
+			HRun{Entry: "HarnessC16Echo", Args: []int64{3, 0}, Bound: "every scalar replaced by 3 arbitrary bytes", Require: []string{"diagnostic"}},
+			HRun{Entry: "HarnessC16Echo", Args: []int64{3, 1}, Bound: "'@' + 3 arbitrary bytes", Require: []string{"diagnostic"}},
+			HRun{Entry: "HarnessC16Echo", Args: []int64{2, 2}, Bound: "'${{ ' + 2 arbitrary bytes", Require: []string{"diagnostic"}},
+			HRun{Entry: "HarnessC16Snippet", Args: []int64{6}, Bound: "sources of 6 bytes", Require: []string{"line-found", "caret"}},
+		)
+		props["C16"] = p
+	}
 }
